@@ -27,6 +27,18 @@ def isFailure (s : FStatus) : Bool := s == .failed || s == .error
 def verdict (sel : Nat → Bool) (domainEq : Bool) (pred : Fld → Fld → Outcome) (src ref : List Fld) : Bool :=
   domainEq && (report sel pred src ref).all (fun c => !isFailure c.status)
 
+/-- What the filters SHOULD see (user-level reading of "the name without the cell-type annotation"):
+    for a cell field of a mesh (`annot n`: the name carries an annotation added by `MeshFields`) the name
+    without that annotation, for every other field (point fields, tabular fields) the name itself. -/
+def userSelected (strip : Nat → Nat) (annot : Nat → Bool) (incl excl : Nat → Bool) (n : Nat) : Bool :=
+  let v := if annot n then strip n else n
+  !(!incl v || excl v)
+
+/-- class predicate of finding F14, negated: every plain (not annotated) field name is a fixed point of
+    `remove_annotation`, i.e. no plain name contains the separator " @ " -/
+def plainFixed (strip : Nat → Nat) (annot : Nat → Bool) (l : List Fld) : Bool :=
+  l.all (fun f => annot f.name || strip f.name == f.name)
+
 /-- pairwise distinct names (decidable form of `Nodup (l.map name)`) -/
 def distinctNames : List Fld → Bool
   | [] => true
